@@ -1,4 +1,4 @@
-import IastModel.Lemmas.ErArms
+import IastModel.Lemmas.ErSrcR
 /-
   The operation visitor's result erases to the node it visited (every arm but the optional-chain
   lowering, which is excluded by hypothesis here).
@@ -28,8 +28,8 @@ theorem updateStatus_counter (st : Status) (tag : Option String) (s : St) : (upd
 
 theorem VRes_src (root : Bool) (s s' : St) (n : Node) (hs : srcOk n = true) (hc : s'.counter = s.counter) : VRes root s s' n n := by
   cases root
-  · exact ⟨by omega, by rw [hc]; exact VC.src hs _ _⟩
-  · exact ⟨0, VC.src hs _ _⟩
+  · exact ⟨by omega, by rw [hc]; exact VC.src _ _ n hs⟩
+  · exact ⟨0, VC.src _ _ n hs⟩
 
 theorem VRes_of_VC (root : Bool) (s s2 : St) (x n : Node) (hc : s.counter ≤ s2.counter) (h : VC s.counter s2.counter x n) :
     VRes root s ((if root = true then do resetCounter; pure x else pure x : M Node) s2).2
@@ -39,27 +39,6 @@ theorem VRes_of_VC (root : Bool) (s s2 : St) (x n : Node) (hc : s.counter ≤ s2
     exact ⟨hc, h⟩
   · simp only [if_true, run_bind, run_pure]
     exact ⟨s2.counter, h.mono (Nat.zero_le _) (Nat.le_refl _)⟩
-
-/-- nodes the visitor only descends into, keeping the constructor -/
-def genK : Node → Bool
-  | .arg .. | .paren .. | .seq .. | .cond .. => true
-  | n => structK n
-
-theorem genAll_VC (n : Node) (hs : srcOk n = true) (hg : genK n = true) (lo hi : Nat) (ks' : List Node)
-    (hkl : KL lo hi ks' n.kids) : VC lo hi (n.withKids ks') n := by
-  have hl := hkl.length
-  cases n with
-  | arg sA e =>
-    match ks', hl, hkl with
-    | [e'], _, hkl => simp only [KL, kids, Forall2] at hkl; exact arg_VC hkl.1
-  | paren e sp =>
-    match ks', hl, hkl with
-    | [e'], _, hkl => simp only [KL, kids, Forall2] at hkl; exact paren_VC hs hkl.1
-  | seq es sp => exact seq_VC hkl
-  | cond t c a sp =>
-    match ks', hl, hkl with
-    | [t', c', a'], _, hkl => exact cond_VC hs hkl
-  | _ => exact gen_VC _ ks' lo hi hs hg hkl
 
 theorem mapKidsM_run (g : Node → M Node) (n : Node) (s : St) :
     mapKidsM mapM' g n s = (n.withKids (mapM' g n.kids s).1, (mapM' g n.kids s).2) := by
